@@ -48,6 +48,10 @@ def main():
         np.save(os.path.join(d, "rms.npy"), rms)
     except BaseException as e:
         out = {"outcome": "raised", "error": type(e).__name__, "text": str(e)[-300:]}
+    # segments still present when the call has returned / raised (checked here, inside the calling
+    # process: python's resource tracker removes leaked segments once this process exits)
+    mid = getattr(BANE, "memory_id", None)
+    out["shm_after_call"] = [n for n in ("ibkg_%s" % mid, "irms_%s" % mid) if mid and os.path.exists("/dev/shm/" + n)]
     print("BANE_CHILD_RESULT " + json.dumps(out))
     sys.stdout.flush()
     # The property is about the call (returned / raised / blocked), not about
